@@ -140,7 +140,7 @@ pub fn run(cfg: &Cfg) -> i32 {
         // order B: client hello blocked on the wire until after the server hello was consumed,
         // and C: server hello delivered only after the client's hello went out
         let plan = Plan {
-            first: vec![], late: 0, block_sends: vec![0], yield_between: false, hello_preloaded: false,
+            first: vec![], late: 0, block_sends: vec![0], block_after_write: vec![], yield_between: false, hello_preloaded: false,
             extra: vec![], drops: 0, hello: hello.clone(),
         };
         // actions offered at the choice point: Poll / DeliverHello / Release in this order; choose
